@@ -99,3 +99,8 @@ claim('C07',
       'dominance of the connected-state gate, who-may-call on the private writer, operation->message table with parameter provenance vs spec/control_messages.json, wire-signature of the frame writer per mode with symbolic length sums, type facts and guard-flow for exclusive writing',
       'Decided from MIR: all seven public operations that can write are gated by the connected-state test; send_control_message and write_half_mut are only called inside Connection; each operation builds exactly the control message (variant, protocol tag, parameter->field mapping, payload presence) the protocol assigns to it; send_control_message writes exactly one frame on each success path - pass-through u32(1+len(control)[+len(payload)]) 112 control [payload], or u32(len(E)) E with E from encode_with_dist_header(_multi) - and picks the mode from the negotiated DIST_HDR_ATOM_CACHE flag; the write half is reachable only through &mut Connection, connections are shared as Arc<tokio::sync::Mutex<Connection>> with no bypass, and every Node operation awaits the send while holding the guard, so frames cannot interleave (per-caller order rests on the mutex\'s FIFO fairness, trusted). Not decided: conformance as read by an independent implementation beyond the layout table; scheduling.',
       NOTE, 'DESIGN.md §4 C07')
+
+claim('C15',
+      'variant-level closure computed from dispatch tables: Prod(X) of each Serializer method, Wire(.) from the encoder/decoder tag flow with the encoder\'s width thresholds (established by interval analysis), Acc(X) of each Deserializer method; constant agreement of atoms; enum-variant shape table; CAST/PANIC over de.rs',
+      'Decided from MIR for the 15 primitive kinds of the serde data model and the compound serialisers: every OwnedTerm variant the serialiser builds for X is accepted by deserialize_X, and so is every variant that term turns into after encode+decode (wide integers -> BigInt, String -> Binary, empty List -> Nil); the atoms for bool / None / unit agree between ser.rs and de.rs in the built configuration; the four enum-variant shapes produced are accepted by deserialize_enum. Not decided: value equality, map-key collisions, the derive macro (see DESIGN).',
+      NOTE, 'DESIGN.md §4 C15')
